@@ -365,6 +365,12 @@ func (m *Machine) Run(pc int, maxSteps int, stop func(pc int) bool) (int, error)
 				return pc, fmt.Errorf("line %d: %s is modelled for register operands only", ins.Line, ins.Op)
 			}
 			x, y := m.Regs[a[0].Reg], m.Regs[a[1].Reg]
+			if ins.Op == "XORQ" && a[0].Reg == a[1].Reg && x.Kind != "data" {
+				// XORQ r, r: the zeroing idiom; r becomes the counter 0 whatever it held
+				m.Regs[a[1].Reg] = Value{Kind: "int", Int: 0}
+				m.zf, m.lt, m.flagsOK = true, false, true
+				break
+			}
 			if x.Kind != "data" || y.Kind != "data" {
 				return pc, fmt.Errorf("line %d: %s on non-data registers (%s:%s, %s:%s) — pointers and counters must not be combined bitwise", ins.Line, ins.Op, a[0].Reg, x.Kind, a[1].Reg, y.Kind)
 			}
